@@ -823,6 +823,8 @@ pub struct E2eAircraft {
     pub speed_kt: f64,
     pub n: u8,
     pub odd_first: bool,
+    /// heard by every receiver (each report is delivered through all sources, a millisecond apart)
+    pub both: bool,
 }
 
 #[derive(Clone, Debug)]
@@ -849,7 +851,14 @@ pub fn e2e_scenario(c: &E2eCase) -> (crate::e2e::Scenario, std::collections::BTr
             let rep = Report { ac: k, icao: a.icao, ts: t, arrival: t, lat, lon, surface: a.surface, odd: (i % 2 == 1) != a.odd_first, df18: a.df18, alt_ft: 6_000 + 25 * (k as i32), filler: 0, only_filler: false };
             let frame = frame_of(&rep);
             truth.insert(hex::encode(&frame), (lat, lon, a.surface));
-            sends.push((t, crate::e2e::Send { source: src, frame, pause_ms: 0, cut: 0 }));
+            sends.push((t, crate::e2e::Send { source: src, frame: frame.clone(), pause_ms: 0, cut: 0 }));
+            if a.both && !a.surface {
+                for other in 0..c.refs.len() {
+                    if other != src {
+                        sends.push((t + 0.001, crate::e2e::Send { source: other, frame: frame.clone(), pause_ms: 0, cut: 0 }));
+                    }
+                }
+            }
         }
     }
     sends.sort_by(|a, b| a.0.partial_cmp(&b.0).unwrap());
@@ -860,7 +869,7 @@ pub fn e2e_scenario(c: &E2eCase) -> (crate::e2e::Scenario, std::collections::BTr
         s.pause_ms = (gap * 1000.0).round() as u32;
         out.push(s);
     }
-    let sc = crate::e2e::Scenario { references: c.refs.iter().map(|r| Some(*r)).collect(), sends: out, df_filter: None, aircraft_filter: None, dedup_ms: 60, update_position: c.update_position, with_file: false, via_config: c.via_config, track: vec![] };
+    let sc = crate::e2e::Scenario { references: c.refs.iter().map(|r| Some(*r)).collect(), sends: out, df_filter: None, aircraft_filter: None, dedup_ms: 60, update_position: c.update_position, with_file: false, via_config: c.via_config, split: 0, track: vec![] };
     (sc, truth)
 }
 
@@ -919,7 +928,7 @@ pub fn replay_e2e(ctx: &Ctx, env: &crate::e2e::Env, sc: &crate::e2e::Scenario, t
 }
 
 fn e2e_case() -> impl Strategy<Value = E2eCase> {
-    let ac = (0x100000u32..0xfffff0, any::<bool>(), any::<bool>(), 0u8..2, 0.0f64..360.0, 0.0f64..1.0, 0.0f64..100.0, 4u8..24, any::<bool>()).prop_map(|(icao, df18, surface, source, bearing, dist_nm, speed_kt, n, odd_first)| E2eAircraft { icao, df18, surface, source, bearing, dist_nm, speed_kt, n, odd_first });
+    let ac = (0x100000u32..0xfffff0, any::<bool>(), any::<bool>(), 0u8..2, 0.0f64..360.0, 0.0f64..1.0, 0.0f64..100.0, 4u8..24, any::<bool>(), any::<bool>()).prop_map(|(icao, df18, surface, source, bearing, dist_nm, speed_kt, n, odd_first, both)| E2eAircraft { icao, df18, surface, source, bearing, dist_nm, speed_kt, n, odd_first, both });
     (point(), 1usize..=2, 20.0f64..60.0, proptest::collection::vec(ac, 1..5), any::<bool>(), any::<bool>()).prop_map(|(p, nsrc, dlon, mut aircraft, update_position, via_config)| {
         let lat = p.lat.clamp(-70.0, 70.0);
         let mut refs = vec![(lat, p.lon)];
@@ -930,6 +939,10 @@ fn e2e_case() -> impl Strategy<Value = E2eCase> {
         for (i, a) in aircraft.iter_mut().enumerate() {
             a.icao = (a.icao & 0xfffff0) | i as u32;
         }
+        // --update-position tells jet1090 that its receivers move: every receiver that heard a message then takes over
+        // the reference of the first one (by design). With two receivers hundreds of kilometres apart that option
+        // makes no sense and the property's premise (a receiver reference within 40 NM) would be void: not combined.
+        let update_position = update_position && refs.len() == 1;
         E2eCase { refs, aircraft, update_position, via_config }
     })
 }
@@ -942,7 +955,7 @@ fn classes(ctx: &Ctx, what: &str, h: &Hist) {
 }
 
 pub fn run(ctx: &Ctx) {
-    ctx.set_rule("histories: 1-4 aircraft, each a plan (start from the C04 strata incl. flights along the 87th parallel, bearing, speed in {0,140,450,700, uniform 0-700} kt, 1-6 segments of 1-29 reports every 0.4-0.6 s separated by gaps from {9.5, 9.99, 10.01, 10.5, 12, 20, 30, 60, 170, 179.9, 180.1, 190, 470, 600, 1000, 1700, 1790, 1860, 2000, 7200 s}, mostly alternating parity, loss levels 0/20/60/90 %, duplicate receptions +<=0.3 s, neighbours delivered in swapped order across any gap (truthful timestamps) or with exchanged timestamps when < 1.5 s apart, DF17 (any capability) or DF18 (any control field) carriers, every airborne (9-18, 20-22) and surface (5-8) type code, altitudes unavailable / 25 ft / Gillham coded, any movement / track / status bits, a quarter of the reports followed by a non-position message of the same aircraft (velocity, identification, status, operational status, target state, type code 0, DF11, DF4) and such messages also arriving during gaps, parity-selective loss (8-67 consecutive reports lose every report of one parity), addresses independent or from one family differing in a few bits / byte order); the airborne alias family 'gap just long enough to fly k latitude / m longitude zones (+-40 km) at <= 690 kt, then airborne again'; surface scenarios add landings, take-offs and the adversarial 'last airborne fix exactly k surface zones away, long gap, then surface' family, with a receiver reference within 36 NM of every surface site and |lat| <= 80; 'hidden reference' scenarios are surface scenarios in which the decoder is given no receiver position at all; 'low altitude' scenarios put every aircraft on one common site, give airborne reports within 15 NM of it altitudes below 1000 ft and let the decoder move the receiver reference to such fixes (as decode1090 always does). Frames from the independent encoder through Message::try_from and decode_positions; and as a JSONL file through the real decode1090 binary (its own loop around decode_position) and, split into chunks, through the Python binding's decode_1090t_vec (positions within 25 m and equal to the library's). End to end: 1-4 slow aircraft (<= 100 kt, airborne within 100 NM / on the ground within 30 NM of their receiver) are served to the real jet1090 binary over one or two Beast TCP sources with receiver references far apart; every position it prints, and every position its /all table holds, must be within 25 m of a position that aircraft reported. Oracle: every attached position within 25 m of the encoded one; per-aircraft outputs bit-identical with and without the other aircraft (fixed reference). Non-trivial = history with >= 1 positioned report and (a gap > 9 s or >= 2 aircraft); distinct by hash of the report list.");
+    ctx.set_rule("histories: 1-4 aircraft, each a plan (start from the C04 strata incl. flights along the 87th parallel, bearing, speed in {0,140,450,700, uniform 0-700} kt, 1-6 segments of 1-29 reports every 0.4-0.6 s separated by gaps from {9.5, 9.99, 10.01, 10.5, 12, 20, 30, 60, 170, 179.9, 180.1, 190, 470, 600, 1000, 1700, 1790, 1860, 2000, 7200 s}, mostly alternating parity, loss levels 0/20/60/90 %, duplicate receptions +<=0.3 s, neighbours delivered in swapped order across any gap (truthful timestamps) or with exchanged timestamps when < 1.5 s apart, DF17 (any capability) or DF18 (any control field) carriers, every airborne (9-18, 20-22) and surface (5-8) type code, altitudes unavailable / 25 ft / Gillham coded, any movement / track / status bits, a quarter of the reports followed by a non-position message of the same aircraft (velocity, identification, status, operational status, target state, type code 0, DF11, DF4) and such messages also arriving during gaps, parity-selective loss (8-67 consecutive reports lose every report of one parity), addresses independent or from one family differing in a few bits / byte order); the airborne alias family 'gap just long enough to fly k latitude / m longitude zones (+-40 km) at <= 690 kt, then airborne again'; surface scenarios add landings, take-offs and the adversarial 'last airborne fix exactly k surface zones away, long gap, then surface' family, with a receiver reference within 36 NM of every surface site and |lat| <= 80; 'hidden reference' scenarios are surface scenarios in which the decoder is given no receiver position at all; 'low altitude' scenarios put every aircraft on one common site, give airborne reports within 15 NM of it altitudes below 1000 ft and let the decoder move the receiver reference to such fixes (as decode1090 always does). Frames from the independent encoder through Message::try_from and decode_positions; and as a JSONL file through the real decode1090 binary (its own loop around decode_position) and, split into chunks, through the Python binding's decode_1090t_vec (positions within 25 m and equal to the library's). End to end: 1-4 slow aircraft (<= 100 kt, airborne within 100 NM / on the ground within 30 NM of their receiver) are served to the real jet1090 binary over one or two Beast TCP sources with receiver references far apart (airborne aircraft may be heard by both receivers, surface aircraft by their own); every position it prints, and every position its /all table holds, must be within 25 m of a position that aircraft reported. Oracle: every attached position within 25 m of the encoded one; per-aircraft outputs bit-identical with and without the other aircraft (fixed reference). Non-trivial = history with >= 1 positioned report and (a gap > 9 s or >= 2 aircraft); distinct by hash of the report list.");
     ctx.assume("speeds <= 700 kt along great circles (rhumb lines along the 87th parallel); receiver reference fixed (update_reference = None) except in the 'low altitude' scenarios, where every fix that can move it lies within 15 NM of the one site all surface traffic is on");
     ctx.assume("surface aircraft are stationary during gaps, so the 40 NM premise of the property stays true");
     let st = Stats { reports: AtomicU64::new(0), positioned: AtomicU64::new(0), surface_positioned: AtomicU64::new(0), reference_moves: AtomicU64::new(0), fillers: AtomicU64::new(0) };
